@@ -30,6 +30,7 @@ type Profile struct {
 	Cycles      bool // AddInput may close a cycle
 	Inner       int  // share of Observe operations aimed at a node created inside a bind scope (out of 100)
 	Wide        bool // MapN nodes with 65..150 inputs (past the edge index threshold)
+	Bind2       int  // share of binds that are Bind2 (Go-only stream: not modelled in Coq)
 	Memo        int  // share of binds that are BindMemoized (out of 100)
 	WPurge      int  // weight of cache Purge/Clear operations
 }
@@ -50,7 +51,7 @@ type Gen struct {
 func (g *Gen) userNodes() []int {
 	var out []int
 	for id, ref := range g.E.Nodes {
-		if ref != nil && ref.Kind != "BindLhs" && ref.Scope == -1 {
+		if ref != nil && ref.Kind != "BindLhs" && ref.Kind != "Pair" && ref.Scope == -1 {
 			out = append(out, id)
 		}
 	}
@@ -145,6 +146,9 @@ func (g *Gen) construct() (Op, bool) {
 		cs := make([]*Texp, n)
 		for i := range cs {
 			cs[i] = g.texp(g.P.Depth, true)
+		}
+		if g.R.Intn(100) < g.P.Bind2 {
+			return Op{K: "NewBind2", Cases: cs, A: g.pickBiased(nodes), B: g.pick(nodes)}, true
 		}
 		if g.R.Intn(100) < g.P.Memo {
 			return Op{K: "NewBindMemo", Cases: cs, A: g.pickBiased(nodes)}, true
